@@ -1,7 +1,10 @@
 import CJ.Model.Logger
+import CJ.Model.Startup
+import CJ.Model.Fmt
 import CJ.Drv.Util
 /-! Line protocol for the logger model: `logger|run|op;op;…` answers the sink (hex) or `nil-logger`;
-`logger|parse|hex` answers the level or `err`; `logger|emits|level|meth` answers 0/1. -/
+`logger|parse|hex` answers the level or `err`; `logger|emits|level|meth` answers 0/1; `logger|fmt|hex|kinds` answers D/N per argument (CJ.Fmt.shows);
+`logger|lrparse|hex` logrus' ParseLevel; `logger|startup|app\|reg|hex` the outcome of main's level lines. -/
 namespace CJ.Drv.Logger
 open CJ.Logger
 
@@ -36,6 +39,22 @@ def handle : List String → Option String
       match parseLevel (← parseHex h) with
       | none => some "err"
       | some l => some (toString l)
+  | ["lrparse", h] => do
+      match CJ.Startup.parseLogrus (← parseHex h) with
+      | none => some "err"
+      | some l => some (toString l)
+  | ["fmt", h, kinds] => do
+      let ks ← (if kinds == "-" then [] else kinds.toList).mapM fun c =>
+        if c == 's' || c == 'e' || c == 'g' then some CJ.Fmt.Kind.str else if c == 'i' then some CJ.Fmt.Kind.int else none
+      match CJ.Fmt.shows ((← parseHex h).map (·.toNat)) ks with
+      | none => some "unsupported"
+      | some bs => some (if bs.isEmpty then "-" else String.ofList (bs.map fun b => if b then 'D' else 'N'))
+  | ["startup", which, h] => do
+      let c ← if which == "app" then some CJ.Startup.appCode else if which == "reg" then some CJ.Startup.regCode else none
+      match CJ.Startup.startup c (← parseHex h) with
+      | .refused => some "refused"
+      | .runs l => some s!"runs:{l}"
+      | .illformed => some "illformed"
   | ["emits", l, m] => do some (showBool (emits (← l.toInt?) (← parseMeth m)))
   | _ => none
 
